@@ -85,12 +85,41 @@ def run_case(case, drv):
     res.tag("cls_%s%s" % (sa["cls"], sb["cls"]))
     clean_a, clean_b = F.names_clean(sa["svals"]), F.names_clean(sb["svals"])
 
+    clean_objs = {}
+
+    def clean_retry(kind):
+        """the same operation on injectively renamed operands (clean state names): is its language right?
+        With colliding names the implementation's result depends on set-iteration order, which the
+        bug-compatible model cannot always follow; a failure that disappears under renaming is the naming
+        defect (KF-C03-*), one that stays is something else."""
+        if not clean_objs:
+            ka, kb = dict(sa), dict(sb)
+            ka["svals"] = ["qa%d" % i for i in range(len(sa["svals"]))]
+            kb["svals"] = ["qb%d" % i for i in range(len(sb["svals"]))]
+            clean_objs["a"], clean_objs["b"] = F.build(ka), F.build(kb)
+        xa, xb = clean_objs["a"], clean_objs["b"]
+        fn = {"inter": lambda: xa.get_intersection(xb), "complement": xa.get_complement,
+              "difference": lambda: xa.get_difference(xb)}.get(kind)
+        if fn is None:
+            return False
+        st_, R_ = outcome(fn)
+        if st_ != "ok":
+            return False
+        kw_ = {"B": B} if kind in ("inter", "difference") else {}
+        d_ = drv.call("fa.langop", kind=kind, A=A, R=F.renumber(F.extract_named(R_, ycodes)), **kw_)
+        return bool(d_["equiv"])
+
     def langop(op, kind, R, scope, agrees, **kw):
         res.evals += 1
         d = drv.call("fa.langop", kind=kind, A=A, R=F.renumber(R), **kw)
         if not d["equiv"]:
+            detail = {"word": d["word"]}
+            if scope and not agrees and clean_retry(kind):
+                agrees = True
+                detail["attribution"] = "correct on injectively renamed operands: name collision only"
+                res.tag("attributed_by_renaming")
             res.violation(op, "language of the result is not the %s of the operand languages" % kind,
-                          detail={"word": d["word"]}, scope=scope, model_agrees=agrees)
+                          detail=detail, scope=scope, model_agrees=agrees)
             return False
         return True
 
@@ -107,7 +136,10 @@ def run_case(case, drv):
         diff = F.same(Rx, M)
         ok = langop(opname, "inter", Rx, scope, not diff, B=B)
         if diff and ok:
-            res.corr_break(opname, "structure differs from model: %s" % diff, detail={"impl": Rx, "model": M})
+            if scope:
+                res.tag("structure_differs_under_colliding_names")
+            else:
+                res.corr_break(opname, "structure differs from model: %s" % diff, detail={"impl": Rx, "model": M})
     # ---- complement -------------------------------------------------------------------
     for opname, f in (("get_complement", fa.get_complement), ("neg", lambda: -fa)):
         st, R = outcome(f)
@@ -130,8 +162,11 @@ def run_case(case, drv):
         diff = F.same(Rx, M["fa"])
         ok = langop(opname, "complement", Rx, scope, not diff)
         if diff and ok:
-            res.corr_break(opname, "structure differs from model: %s" % diff,
-                           detail={"impl": Rx, "model": M["fa"]})
+            if scope:
+                res.tag("structure_differs_under_colliding_names")   # order-dependent merging, see clean_retry
+            else:
+                res.corr_break(opname, "structure differs from model: %s" % diff,
+                detail={"impl": Rx, "model": M["fa"]})
     # ---- difference -------------------------------------------------------------------
     for opname, f in (("get_difference", lambda: fa.get_difference(fb)), ("-", lambda: fa - fb)):
         st, R = outcome(f)
@@ -148,7 +183,10 @@ def run_case(case, drv):
         diff = F.same(Rx, M)
         ok = langop(opname, "difference", Rx, scope, not diff, B=B)
         if diff and ok:
-            res.corr_break(opname, "structure differs from model: %s" % diff, detail={"impl": Rx, "model": M})
+            if scope:
+                res.tag("structure_differs_under_colliding_names")
+            else:
+                res.corr_break(opname, "structure differs from model: %s" % diff, detail={"impl": Rx, "model": M})
     # ---- reverse ------------------------------------------------------------------------
     for opname, f in (("reverse", fa.reverse), ("~", lambda: ~fa)):
         st, R = outcome(f)
